@@ -4,6 +4,7 @@ import (
 	"bytes"
 	"encoding/hex"
 	"fmt"
+	"sync"
 	"testing"
 
 	kmip "github.com/ovh/kmip-go"
@@ -111,6 +112,78 @@ func TestC20Appended(t *testing.T) {
 				rec.Fail(rt, name, "encoding-depends-on-what-the-encoder-wrote-before:"+encName, fmt.Errorf("b (version %s) written after a (version %s) on the same %s encoder is %d bytes, alone %d bytes", vb, va, encName, len(suffix), len(alone[i])), c)
 				return
 			}
+		}
+	})
+}
+
+// TestC20Versions: messages of different protocol versions encoded at the same time by several goroutines (a server
+// with 1.0 and 1.4 clients). The reference bytes are made first, by one goroutine; then 8 goroutines encode the two
+// messages alternately, 200 times each, in binary, XML and JSON: every result equals the reference.
+func TestC20Versions(t *testing.T) {
+	const name = "TestC20Versions"
+	rec := evid.New("C20", name, "pairs of generated request / response messages with DIFFERENT header versions, later-version elements left populated (the gate has work to do); reference encodings made sequentially first, then 8 goroutines encode both messages alternately 200 times each in binary, XML and JSON; "+
+		"oracle: every concurrent result is byte-identical with the sequential reference; non-trivial = every case (the versions differ by construction); distinct by the pair's reference encodings").Attach(t)
+	rapid.Check(t, func(rt *rapid.T) {
+		vers := gen.Versions
+		ia := rapid.IntRange(0, len(vers)-1).Draw(rt, "version-a")
+		ib := rapid.IntRange(0, len(vers)-2).Draw(rt, "version-b")
+		if ib >= ia {
+			ib++
+		}
+		draw := func(label string, v kmip.ProtocolVersion) any {
+			o := gen.MsgOpts{Alphabet: "xml", TextSafe: true, PopulateAll: rapid.Bool().Draw(rt, label+"-all"), AllowGated: true, ForceVersion: &v}
+			if rapid.Bool().Draw(rt, label+"-request") {
+				return gen.Request(rt, o)
+			}
+			return gen.Response(rt, o)
+		}
+		msgs := []any{draw("a", vers[ia]), draw("b", vers[ib])}
+		encs := []func(any) []byte{ttlv.MarshalTTLV, ttlv.MarshalXML, ttlv.MarshalJSON}
+		var ref [2][3][]byte
+		if err := safely(func() error {
+			for i, m := range msgs {
+				for k, f := range encs {
+					ref[i][k] = append([]byte{}, f(m)...)
+				}
+			}
+			return nil
+		}); err != nil {
+			rec.Case(false, []byte(err.Error()), "cannot-be-encoded")
+			return
+		}
+		c := map[string]any{"version_a": vers[ia].String(), "version_b": vers[ib].String(), "a_binary": hex.EncodeToString(ref[0][0]), "b_binary": hex.EncodeToString(ref[1][0])}
+		rec.Case(true, append(append([]byte{}, ref[0][0]...), ref[1][0]...), "a="+vers[ia].String(), "b="+vers[ib].String())
+		if rec.WantSample() && len(ref[0][0])+len(ref[1][0]) < 600 {
+			rec.Sample(c)
+		}
+		var wg sync.WaitGroup
+		var mu sync.Mutex
+		var bad error
+		start := make(chan struct{})
+		for g := 0; g < 8; g++ {
+			wg.Add(1)
+			go func(g int) {
+				defer wg.Done()
+				<-start
+				for it := 0; it < 200; it++ {
+					i := (g + it) % 2
+					k := (g/2 + it) % 3
+					var out []byte
+					if err := safely(func() error { out = append([]byte{}, encs[k](msgs[i])...); return nil }); err != nil || !bytes.Equal(out, ref[i][k]) {
+						mu.Lock()
+						if bad == nil {
+							bad = fmt.Errorf("goroutine %d, iteration %d: message %s (version %s) in %s is %d bytes, sequentially %d bytes (%v)", g, it, []string{"a", "b"}[i], []kmip.ProtocolVersion{vers[ia], vers[ib]}[i], []string{"binary", "xml", "json"}[k], len(out), len(ref[i][k]), err)
+						}
+						mu.Unlock()
+						return
+					}
+				}
+			}(g)
+		}
+		close(start)
+		wg.Wait()
+		if bad != nil {
+			rec.Fail(rt, name, "encoding-depends-on-concurrent-encodes", bad, c)
 		}
 	})
 }
